@@ -176,10 +176,20 @@ impl Grapheme {
     }
 }
 
+/// Checks for a single escaped character such as `\\d`, `\\.`, `\\n` or `\\u{1f4a9}`,
+/// in contrast to several characters one of which is escaped.
+fn is_single_escape_sequence(value: &str) -> bool {
+    value.starts_with('\\')
+        && (value.chars().count() == 2
+            || (value.starts_with("\\u{")
+                && value.ends_with('}')
+                && value.matches('\\').count() == 1))
+}
+
 impl Display for Grapheme {
     fn fmt(&self, f: &mut Formatter<'_>) -> Result {
         let is_single_char = self.char_count(false) == 1
-            || (self.chars.len() == 1 && self.chars[0].matches('\\').count() == 1);
+            || (self.chars.len() == 1 && is_single_escape_sequence(&self.chars[0]));
         let is_range = self.min < self.max;
         let is_repetition = self.min > 1;
         let mut value = if self.repetitions.is_empty() {
